@@ -15,6 +15,19 @@ import (
 
 func init() { cmds["box"] = boxCmd }
 
+// safeDecrypt: a panic inside decrypt is reported as such (with the input) instead of killing the stream
+func safeDecrypt(key *[32]byte, c []byte) (m []byte, err error) {
+	defer func() {
+		if r := recover(); r != nil {
+			boxPanics = append(boxPanics, fmt.Sprintf("decrypt panics on a %d-byte input: %v", len(c), r))
+			m, err = nil, fmt.Errorf("panic: %v", r)
+		}
+	}()
+	return kv.VerifDecrypt(key, c)
+}
+
+var boxPanics []string
+
 func boxCmd(args []string) int {
 	fs := flag.NewFlagSet("box", flag.ExitOnError)
 	seed := fs.Uint64("seed", 1, "")
@@ -57,7 +70,7 @@ func boxCmd(args []string) int {
 		e.Op(fmt.Sprintf("box seal %s %s %s", hx(key[:]), hx(nonce), emptyOK(m)), hx(c[24:]))
 		st.Count("seal")
 		// oracles on the implementation
-		back, err := kv.VerifDecrypt(&key, c)
+		back, err := safeDecrypt(&key, c)
 		if err != nil || !bytes.Equal(back, m) {
 			st.Fail(fmt.Sprintf("len %d", l), fmt.Sprintf("decrypt(encrypt m) != m: %v", err), nil)
 		}
@@ -75,7 +88,7 @@ func boxCmd(args []string) int {
 			t := append([]byte(nil), c...)
 			t[bit/8] ^= 1 << (bit % 8)
 			res := "err"
-			if mm, err := kv.VerifDecrypt(&key, t); err == nil {
+			if mm, err := safeDecrypt(&key, t); err == nil {
 				res = "ok:" + emptyOK(mm)
 				st.Fail(fmt.Sprintf("len %d bit %d", l, bit), "a modified ciphertext decrypts without error", []string{hx(key[:]), hx(t)})
 			}
@@ -85,7 +98,7 @@ func boxCmd(args []string) int {
 		trunc := func(n int) {
 			t := c[:n]
 			res := "err"
-			if mm, err := kv.VerifDecrypt(&key, t); err == nil {
+			if mm, err := safeDecrypt(&key, t); err == nil {
 				res = "ok:" + emptyOK(mm)
 				st.Fail(fmt.Sprintf("len %d truncated to %d", l, n), "a truncated ciphertext decrypts without error", []string{hx(key[:]), hx(t)})
 			}
@@ -116,7 +129,7 @@ func boxCmd(args []string) int {
 		wk := key
 		wk[r.Intn(32)] ^= 1 << r.Intn(8)
 		res := "err"
-		if mm, err := kv.VerifDecrypt(&wk, c); err == nil {
+		if mm, err := safeDecrypt(&wk, c); err == nil {
 			res = "ok:" + emptyOK(mm)
 			st.Fail(fmt.Sprintf("len %d", l), "a different key decrypts without error", nil)
 		}
@@ -137,7 +150,7 @@ func boxCmd(args []string) int {
 		e.Op(fmt.Sprintf("box legacyopen %s %s %s", hx(key[:]), hx(nonce), hx(lc)), "ok:"+emptyOK(m))
 		// data written by the legacy format, read through decrypt (the documented compatibility path)
 		legacyBlob := append(append([]byte(nil), nonce...), lc...)
-		dm, derr := kv.VerifDecrypt(&key, legacyBlob)
+		dm, derr := safeDecrypt(&key, legacyBlob)
 		got := "err"
 		if derr == nil {
 			got = "ok:" + emptyOK(dm)
@@ -211,6 +224,13 @@ func boxCmd(args []string) int {
 		}
 		if i < 2 {
 			st.Sample(strings.Join(e.CaseOps()[len(e.CaseOps())-3:], " ; "))
+		}
+	}
+	seenPanic := map[string]bool{}
+	for _, p := range boxPanics {
+		if !seenPanic[p] {
+			seenPanic[p] = true
+			st.Fail("panic", p, nil)
 		}
 	}
 	st.Cases = *n
